@@ -329,6 +329,10 @@ class Output(object):
         if descs is None:
             if self.axis == verif.axis.Threshold():
                 descs = {"Threshold": self.thresholds}
+            elif self.axis == verif.axis.Obs():
+                descs = {"Observed": self.thresholds}
+            elif self.axis == verif.axis.Fcst():
+                descs = {"Forecasted": self.thresholds}
             else:
                 descs = data.get_axis_descriptions(self.axis)
         s = ','.join(descs.keys()) + ',' + ','.join(labels) + '\n'
@@ -336,7 +340,7 @@ class Output(object):
         # Loop over rows
         for i in range(len(x)):
             line = ""
-            line += ','.join(str(descs[k][i]) for k in descs)
+            line += ','.join("All" if descs[k] is None else str(descs[k][i]) for k in descs)
             for f in range(y.shape[1]):
                 line = line + ',%g' % y[i, f]
             s += line + "\n"
